@@ -25,14 +25,23 @@ structure StEq (a b : Defs) : Prop where
   iu : ∀ ref, (b.instrs.getD ref default).resolved = false → b.instrs.getD ref default = a.instrs.getD ref default
   du : ∀ ref, (b.datas.getD ref default).resolved = false → b.datas.getD ref default = a.datas.getD ref default
   su : ∀ r, (b.sym r).resolved = false → b.sym r = a.sym r
+  ifz : ∀ ref, (a.instrs.getD ref default).resolved = true → b.instrs.getD ref default = a.instrs.getD ref default
+  dfz : ∀ ref, (a.datas.getD ref default).resolved = true → b.datas.getD ref default = a.datas.getD ref default
 
 theorem StEq.refl (a : Defs) : StEq a a :=
-  ⟨fun _ => rfl, fun _ h => h, rfl, rfl, rfl, rfl, rfl, rfl, fun _ h => h, fun _ h => h, fun _ _ => rfl, fun _ _ => rfl, fun _ _ => rfl⟩
+  ⟨fun _ => rfl, fun _ h => h, rfl, rfl, rfl, rfl, rfl, rfl, fun _ h => h, fun _ h => h, fun _ _ => rfl, fun _ _ => rfl, fun _ _ => rfl,
+   fun _ _ => rfl, fun _ _ => rfl⟩
 
 theorem StEq.trans {a b c : Defs} (h1 : StEq a b) (h2 : StEq b c) : StEq a c := by
   refine ⟨fun r => (h2.sv r).trans (h1.sv r), fun r h => h2.sm r (h1.sm r h), h2.res.trans h1.res, h2.aligns.trans h1.aligns,
     h2.addrs.trans h1.addrs, h2.banks.trans h1.banks, h2.ruledefs.trans h1.ruledefs, h2.fns.trans h1.fns,
-    fun r h => h2.im r (h1.im r h), fun r h => h2.dm r (h1.dm r h), fun r h => ?_, fun r h => ?_, fun r h => ?_⟩
+    fun r h => h2.im r (h1.im r h), fun r h => h2.dm r (h1.dm r h), fun r h => ?_, fun r h => ?_, fun r h => ?_,
+    fun r h => ?_, fun r h => ?_⟩
+  rotate_left 3
+  · have e1 := h1.ifz r h
+    rw [h2.ifz r (by rw [e1]; exact h), e1]
+  · have e1 := h1.dfz r h
+    rw [h2.dfz r (by rw [e1]; exact h), e1]
   · have e2 := h2.iu r h
     rw [e2]
     exact h1.iu r (by rw [← e2]; exact h)
@@ -176,8 +185,11 @@ theorem resolveData_shape (st : Static) (d d' : Defs) (ctx : RCtx) (ref : Nat) (
     | (injection h with h; injection h with h1 _; subst h1; first | exact Or.inl rfl | exact Or.inr ⟨_, rfl⟩)
 
 theorem stEq_of_instr_set (d : Defs) (ref : Nat) (X : InstrDef)
-    (hx : X.resolved = true) : StEq d { d with instrs := d.instrs.set ref X } := by
-  refine ⟨fun _ => rfl, fun _ h => h, rfl, rfl, rfl, rfl, rfl, rfl, fun r h => ?_, fun _ h => h, fun r h => ?_, fun _ _ => rfl, fun _ _ => rfl⟩
+    (hx : X.resolved = true) (hfz : ∀ r, (d.instrs.getD r default).resolved = true →
+      ({ d with instrs := d.instrs.set ref X } : Defs).instrs.getD r default = d.instrs.getD r default) :
+    StEq d { d with instrs := d.instrs.set ref X } := by
+  refine ⟨fun _ => rfl, fun _ h => h, rfl, rfl, rfl, rfl, rfl, rfl, fun r h => ?_, fun _ h => h, fun r h => ?_, fun _ _ => rfl, fun _ _ => rfl,
+    hfz, fun _ _ => rfl⟩
   · rcases getD_set_eq_or d.instrs ref r X default with h1 | ⟨h1, h2⟩
     · simp only; rw [h1]; exact h
     · subst h1; simp only; rw [h2]; exact hx
@@ -186,9 +198,12 @@ theorem stEq_of_instr_set (d : Defs) (ref : Nat) (X : InstrDef)
     · exact h1
     · subst h1; rw [h2, hx] at h; cases h
 
-theorem stEq_of_data_set (d : Defs) (ref : Nat) (X : DataDef) (hx : X.resolved = true) :
+theorem stEq_of_data_set (d : Defs) (ref : Nat) (X : DataDef) (hx : X.resolved = true)
+    (hfz : ∀ r, (d.datas.getD r default).resolved = true →
+      ({ d with datas := d.datas.set ref X } : Defs).datas.getD r default = d.datas.getD r default) :
     StEq d { d with datas := d.datas.set ref X } := by
-  refine ⟨fun _ => rfl, fun _ h => h, rfl, rfl, rfl, rfl, rfl, rfl, fun _ h => h, fun r h => ?_, fun _ _ => rfl, fun r h => ?_, fun _ _ => rfl⟩
+  refine ⟨fun _ => rfl, fun _ h => h, rfl, rfl, rfl, rfl, rfl, rfl, fun _ h => h, fun r h => ?_, fun _ _ => rfl, fun r h => ?_, fun _ _ => rfl,
+    fun _ _ => rfl, hfz⟩
   · rcases getD_set_eq_or d.datas ref r X default with h1 | ⟨h1, h2⟩
     · simp only; rw [h1]; exact h
     · subst h1; simp only; rw [h2]; exact hx
@@ -231,7 +246,8 @@ theorem resolveConstant_dich (st : Static) (d d' : Defs) (ctx : RCtx) (ref : Nat
         constructor
         · -- StEq
           subst h1
-          refine ⟨fun r' => ?_, fun r' hr => ?_, rfl, rfl, rfl, rfl, rfl, rfl, fun _ h => h, fun _ h => h, fun _ _ => rfl, fun _ _ => rfl, fun r' hu => ?_⟩
+          refine ⟨fun r' => ?_, fun r' hr => ?_, rfl, rfl, rfl, rfl, rfl, rfl, fun _ h => h, fun _ h => h, fun _ _ => rfl, fun _ _ => rfl, fun r' hu => ?_,
+            fun _ _ => rfl, fun _ _ => rfl⟩
           · rcases sym_setSym d ref r' { d.sym ref with value := (d.sym ref).value, resolved := st.opts.optStatic && ctx.first && (d.sym ref).known } with h1 | ⟨h0, h1⟩
             · rw [h1]
             · subst h0; rw [h1]
@@ -282,6 +298,7 @@ theorem resolveAssert_first (st : Static) (d : Defs) (c : RCtx) (b : Bool) (e : 
 theorem dispatch_dich (st : Static) (d d' : Defs) (ctx : RCtx) (n : AstNode) (k : Nat) (r : List String)
     (hok : NodeOK d n) (h : dispatch st d ctx n k = .ok (d', true, r)) :
     StEq d d' ∧ (markedA d' n k = false → d' = d ∧ dispatch st d (ctx.setFirst false) n k = .ok (d, true, r)) := by
+  have fr := dispatch_frame st d d' ctx n k true r h
   unfold dispatch at h ⊢
   split at h
   · rename_i level name kind ne ref
@@ -307,7 +324,7 @@ theorem dispatch_dich (st : Static) (d d' : Defs) (ctx : RCtx) (n : AstNode) (k 
         · subst hd
           by_cases hin : ref < d.instrs.length
           · simp only [getD_set_self_lt d.instrs ref X default hin] at hm
-            exact stEq_of_instr_set d ref X hm
+            exact stEq_of_instr_set d ref X hm fr.ifz
           · have : d.instrs.set ref X = d.instrs := List.set_eq_of_length_le (Nat.not_lt.mp hin)
             rw [this]; exact StEq.refl d
       · simp only [markedA, markedS] at hh
@@ -325,7 +342,7 @@ theorem dispatch_dich (st : Static) (d d' : Defs) (ctx : RCtx) (n : AstNode) (k 
         · subst hd
           by_cases hin : refs.getD k 0 < d.datas.length
           · simp only [getD_set_self_lt d.datas _ X default hin] at hm
-            exact stEq_of_data_set d _ X hm
+            exact stEq_of_data_set d _ X hm fr.dfz
           · have : d.datas.set (refs.getD k 0) X = d.datas := List.set_eq_of_length_le (Nat.not_lt.mp hin)
             rw [this]; exact StEq.refl d
       · simp only [markedA, markedS] at hh
@@ -349,6 +366,71 @@ theorem dispatch_dich (st : Static) (d d' : Defs) (ctx : RCtx) (n : AstNode) (k 
   · injection h with h; injection h with h1 h2; injection h2 with _ h3
     subst h1; subst h3
     exact ⟨StEq.refl _, fun _ => ⟨rfl, rfl⟩⟩
+
+/-! ## a step writes the entry of its own item only -/
+
+macro "same_tac" : tactic => `(tactic| (
+  repeat' (first | (rename_i h; split at h))
+  all_goals (first | (rename_i h; cases h; done) | (rename_i h; cases h; exact ⟨rfl, rfl⟩))))
+
+theorem simple_items (st : Static) (d d' : Defs) (ctx : RCtx) (s : Bool) (r : List String) :
+    (∀ ref, resolveLabel st d ctx ref = .ok (d', s, r) → d'.instrs = d.instrs ∧ d'.datas = d.datas) ∧
+    (∀ ref e, resolveConstant st d ctx ref e = .ok (d', s, r) → d'.instrs = d.instrs ∧ d'.datas = d.datas) ∧
+    (∀ ref e, resolveRes st d ctx ref e = .ok (d', s, r) → d'.instrs = d.instrs ∧ d'.datas = d.datas) ∧
+    (∀ ref e, resolveAlign st d ctx ref e = .ok (d', s, r) → d'.instrs = d.instrs ∧ d'.datas = d.datas) ∧
+    (∀ ref e, resolveAddr st d ctx ref e = .ok (d', s, r) → d'.instrs = d.instrs ∧ d'.datas = d.datas) ∧
+    (∀ e, resolveAssert st d ctx e = .ok (d', s, r) → d'.instrs = d.instrs ∧ d'.datas = d.datas) := by
+  refine ⟨?_, ?_, ?_, ?_, ?_, ?_⟩
+  · intro ref h; unfold resolveLabel at h; simp only at h; revert h; intro h; same_tac
+  · intro ref e h; unfold resolveConstant at h; simp only at h; revert h; intro h; same_tac
+  · intro ref e h; unfold resolveRes at h; simp only at h; revert h; intro h; same_tac
+  · intro ref e h; unfold resolveAlign at h; simp only at h; revert h; intro h; same_tac
+  · intro ref e h; unfold resolveAddr at h; simp only at h; revert h; intro h; same_tac
+  · intro e h; rw [resolveAssert_id st d d' ctx e s r h]; exact ⟨rfl, rfl⟩
+
+theorem dispatch_other_instr (st : Static) (d d' : Defs) (ctx : RCtx) (n : AstNode) (k : Nat) (s : Bool) (r : List String)
+    (h : dispatch st d ctx n k = .ok (d', s, r)) (ref : Nat) (hn : ∀ src, n ≠ .instr src (some ref)) :
+    d'.instrs.getD ref default = d.instrs.getD ref default := by
+  obtain ⟨s1, s2, s3, s4, s5, s6⟩ := simple_items st d d' ctx s r
+  unfold dispatch at h
+  split at h
+  · rename_i level name kind ne ref'
+    cases kind with
+    | label => rw [(s1 _ h).1]
+    | constant e => rw [(s2 _ _ h).1]
+  · rename_i src ref'
+    have hne : ref' ≠ ref := fun he => hn src (by rw [he])
+    rcases resolveInstruction_shape st d d' ctx ref' s r h with hd | ⟨X, hd⟩
+    · rw [hd]
+    · rw [hd]; exact getD_set_ne _ _ _ _ _ hne
+  · rcases resolveData_shape st d d' ctx _ _ _ s r h with hd | ⟨X, hd⟩ <;> rw [hd]
+  · rw [(s3 _ _ h).1]
+  · rw [(s4 _ _ h).1]
+  · rw [(s5 _ _ h).1]
+  · rw [(s6 _ h).1]
+  · injection h with h; injection h with h1 _; rw [← h1]
+
+theorem dispatch_other_data (st : Static) (d d' : Defs) (ctx : RCtx) (n : AstNode) (k : Nat) (s : Bool) (r : List String)
+    (h : dispatch st d ctx n k = .ok (d', s, r)) (ref : Nat) (hn : ∀ sz es refs, n = .data sz es refs → refs.getD k 0 ≠ ref) :
+    d'.datas.getD ref default = d.datas.getD ref default := by
+  obtain ⟨s1, s2, s3, s4, s5, s6⟩ := simple_items st d d' ctx s r
+  unfold dispatch at h
+  split at h
+  · rename_i level name kind ne ref'
+    cases kind with
+    | label => rw [(s1 _ h).2]
+    | constant e => rw [(s2 _ _ h).2]
+  · rcases resolveInstruction_shape st d d' ctx _ s r h with hd | ⟨X, hd⟩ <;> rw [hd]
+  · rename_i sz es refs
+    have hne := hn sz es refs rfl
+    rcases resolveData_shape st d d' ctx _ _ _ s r h with hd | ⟨X, hd⟩
+    · rw [hd]
+    · rw [hd]; exact getD_set_ne _ _ _ _ _ hne
+  · rw [(s3 _ _ h).2]
+  · rw [(s4 _ _ h).2]
+  · rw [(s5 _ _ h).2]
+  · rw [(s6 _ h).2]
+  · injection h with h; injection h with h1 _; rw [← h1]
 
 /-! ## the flag and the messages of a step depend on the state only through its values and the item's own entry -/
 
